@@ -472,9 +472,10 @@ def gen_history(rng, length, solver="glpk", ctx_p=0.12, max_depth=3, fail_p=0.15
         elif n == "AddRxn":
             c = [k for k in pending if k not in dead and
                  not any(int(m.id[1:]) in removed_m for m in im.rx[k]._metabolites)]
-            # outside contexts a reaction that was removed earlier may be added again (the same object, whose
-            # keys are the model's own - possibly removed - metabolite objects)
-            back_again = [k for k in removed_r if im.rx[k]._model is not M] if depth == 0 else []
+            # a reaction that was removed earlier may be added again (the same object, whose keys are the model's
+            # own - possibly removed - metabolite objects)
+            # (inside a block only a reaction that was removed BEFORE the outermost block: the scope rule)
+            back_again = [k for k in removed_r if im.rx[k]._model is not M and (depth == 0 or k not in im.block)]
             if back_again and rng.random() < 0.5:
                 o = ["AddRxn", rng.choice(back_again)]
             elif c:
